@@ -123,8 +123,8 @@ def expected(m: Mol):
                 if isinstance(rhs, Stoch):
                     if (d.symbol, d.id) != (rhs.left.symbol, rhs.left.id):
                         continue
-                if d2.w == 0 and not (isinstance(rhs, Stoch) and rhs.left.transitions):
-                    continue  # all-zero edge: ignored on both sides
+                if d2.w == 0:
+                    continue  # the edge would carry weight 0 in all four slots: ignored on both sides
                 edges["transition"].append((off[t_i] + a, off[t2] + a2, BT[float(d.order)], None))
     return nodes, edges, off
 
